@@ -340,6 +340,31 @@ theorem C14_host_idempotent_partial (idna : Str → Option Str) (h : Option Str)
 -- non-vacuity: ftp is outside the normalizable schemes
 example : Gen.normalizableSchemes.contains (some [102, 116, 112]) = false := by decide
 
+/-
+Host lower-case clause of the normal form.  Full statement: on success with a normalizable scheme the
+host is lower-case ASCII (an RFC 6874 zone id keeps its case).  Proved for the reg-name branch (every
+label lower-cased, or the IDNA answer, assumed lower-case — the contract of `idna.encode`) and the
+zone-less IPv6 branch.  Missing: the dotted-quad branch (`_IPV4_RE` matches, host returned untouched:
+digits and dots only, not proved) and the address part of a literal with a zone.
+-/
+theorem C14_host_lower_partial (idna : Str → Option Str)
+    (hc : ∀ l r, idna l = some r → lower r = r)
+    (h : Str) (sc : Option Str) (hs : sc ∈ [some http, some https, none])
+    (h4 : ipv4Match h = false)
+    (hz : ipv6AddrzMatch h = true → h.dropWhile (· != 37) = [])
+    (h' : Str) (hh : normalizeHost idna (some h) sc = .ok (some h')) : lower h' = h' := by
+  apply normalizeHost_lower hc h sc _ h4 hz h' hh
+  simp only [List.mem_cons, List.not_mem_nil, or_false] at hs
+  rcases hs with rfl | rfl | rfl <;> decide
+
+-- non-vacuity: "ExAmple.COM" (neither IPv4 nor IPv6) is lower-cased; "[FE80::1]" too
+example : normalizeHost (fun _ => none) (some [69, 120, 65, 109, 112, 108, 101, 46, 67, 79, 77]) (some http) =
+    .ok (some [101, 120, 97, 109, 112, 108, 101, 46, 99, 111, 109]) := by decide
+example : ipv4Match [69, 120, 65, 109, 112, 108, 101, 46, 67, 79, 77] = false ∧
+    ipv6AddrzMatch [69, 120, 65, 109, 112, 108, 101, 46, 67, 79, 77] = false := by decide
+example : normalizeHost (fun _ => none) (some [91, 70, 69, 56, 48, 58, 58, 49, 93]) none =
+    .ok (some [91, 102, 101, 56, 48, 58, 58, 49, 93]) := by decide
+
 /-! ## semantic facts about the generated tables the model uses -/
 
 /-- the sets nest as in RFC 3986 and none of them contains `%`, space, control characters or
